@@ -219,9 +219,9 @@ Example C16_pin_naming :
 Proof. exact pin_naming. Qed.
 Print Assumptions C16_pin_naming.
 
-(* the resource table (Proto.resource_messages of every file, first declaring file wins): when all the
-   declarations of a type name the same address -- in particular when the type is declared once -- the
-   lookup does not depend on the order of the files of the request *)
+(* the resource table (per file: the declarations by real messages, then Proto.resource_messages; first layer that knows
+   the type wins): when all the declarations of a type name the same address -- in particular when the type is declared
+   once -- the lookup does not depend on the order of the files of the request *)
 Theorem C16_res_lookup_order_free : forall g g' t,
   Permutation.Permutation g g' -> res_agree g t -> res_lookup g t = res_lookup g' t.
 Proof. exact res_lookup_order_free. Qed.
@@ -234,22 +234,29 @@ Example C16_ex_res_agree :
 Proof. exact ex_res_agree. Qed.
 Print Assumptions C16_ex_res_agree.
 
-(* without it the lookup does depend on the order: the API of c16_util.resource_twice_api (type declared by
-   the message Shelf in resources.proto and again at file level in library.proto) *)
+(* a resource reference to a type carried by a message resolves to that message, whatever file-level definitions of the type
+   exist and wherever their files stand (the sentence the former finding selective.resource_declared_twice_file_level_first
+   violated; repaired in /repo) *)
+Theorem C16_res_lookup_prefers_message : forall g t a f,
+  In f g -> In (t, a) (fi_res f) -> a <> "" ->
+  (forall f' a', In f' g -> In (t, a') (fi_res f') -> a' <> "" -> a' = a) ->
+  res_lookup g t = Some a.
+Proof. exact res_lookup_prefers_message. Qed.
+Print Assumptions C16_res_lookup_prefers_message.
+
+(* the API of c16_util.resource_twice_api (type declared by the message Shelf in resources.proto and again at file level in
+   library.proto): the declarations disagree, the lookup finds the message in either order *)
 Example C16_ex_res_lookup_order :
   Permutation.Permutation [rt_res; rt_lib] [rt_lib; rt_res] /\ ~ res_agree [rt_res; rt_lib] rt_type /\
-  res_lookup [rt_res; rt_lib] rt_type = Some (P "Shelf") /\ res_lookup [rt_lib; rt_res] rt_type = Some "".
+  res_lookup [rt_res; rt_lib] rt_type = Some (P "Shelf") /\ res_lookup [rt_lib; rt_res] rt_type = Some (P "Shelf").
 Proof. exact ex_res_lookup_order. Qed.
 Print Assumptions C16_ex_res_lookup_order.
 
-(* REFUTED (finding selective.resource_declared_twice_file_level_first): a kept RPC that references a resource type
-   does not always keep the message carrying the type. When an earlier file declares the type at file level, the
-   reference resolves to the address-less synthetic message and the real resource message, with everything
-   only it leads to, is pruned; with the same files in the other order it is kept *)
-Theorem C16_resource_reference_keeps_message_refuted :
-  exists g f, In f g /\ In (rt_type, P "Shelf") (fi_res f) /\ rt_kept g (P "DeleteShelfRequest") = true /\
-              rt_kept g (P "Shelf") = false /\ rt_kept g (P "Theme") = false /\
-              rt_kept (rev g) (P "Shelf") = true /\ rt_kept (rev g) (P "Shelf.Row") = true /\
-              rt_kept (rev g) (P "Theme") = true /\ rt_kept (rev g) (P "Finish") = true.
-Proof. exact resource_reference_keeps_message_refuted. Qed.
-Print Assumptions C16_resource_reference_keeps_message_refuted.
+(* the former witness of the finding, both orders of the files: the kept RPC keeps the resource message and everything only
+   it leads to, and still prunes what nothing reaches *)
+Theorem C16_resource_reference_keeps_message_witness :
+  forall g, g = [rt_lib; rt_res] \/ g = [rt_res; rt_lib] ->
+  rt_kept g (P "DeleteShelfRequest") = true /\ rt_kept g (P "Shelf") = true /\ rt_kept g (P "Shelf.Row") = true /\
+  rt_kept g (P "Theme") = true /\ rt_kept g (P "Finish") = true /\ rt_kept g (P "Spare") = false.
+Proof. exact resource_reference_keeps_message_witness. Qed.
+Print Assumptions C16_resource_reference_keeps_message_witness.
